@@ -129,6 +129,9 @@ class World:
                     body.append(("ref", nm, respell(nm, rng), rng.random() < 0.2))
             if rng.random() < 0.5:
                 body.append(("mark", self.next_marker()))
+            if rng.random() < 0.25:
+                # a block inside the scope (it opens a scope of its own and closes it again)
+                body.append(("rep", rng.randint(0, 3), self.next_marker()))
             rng.shuffle(body)
             lines += body
         # constants anywhere (a constant does not end a local scope)
@@ -279,6 +282,9 @@ class World:
                 t = ("mov #%s, r0" % ln[2]) if ln[3] else (".word " + ln[2])
             elif k == "mark":
                 t = ".word %o" % ln[1]
+            elif k == "rep":
+                t = ".repeat %d. { .word %o }" % (ln[1], ln[2])
+                self.forms.add("repeat block")
             elif k == "include":
                 t = '.include "%s"' % self.units[ln[1]].name
                 self.forms.add("include")
@@ -366,6 +372,10 @@ class World:
                 elif k == "mark":
                     out.append(("w", ln[1]))
                     counter["addr"] += 2
+                elif k == "rep":
+                    for _ in range(ln[1]):
+                        out.append(("w", ln[2]))
+                        counter["addr"] += 2
                 elif k == "include":
                     walk(self.units[ln[1]])
         for u in self.mains:
@@ -429,7 +439,7 @@ def run(ctx):
     ctx.rule = ("'scope worlds': 1-3 linked files with include trees of depth <= 3; every unit takes 1-4 ordinary names (labels or "
                 "constants) from one pool of 8, so the same name is private to several files; 0-3 numeric local labels from a pool of 6 in "
                 "every scope, so local names are reused in every scope; exported names use '::', '==', '.extern a, b' before or after "
-                "the definition, or '.extern all' placed anywhere; references ('.word x' / 'mov #x, r0', respelled in another case) "
+                "the definition, or '.extern all' placed anywhere; references ('.word x' / 'mov #x, r0', respelled in another case) and '.repeat' blocks "
                 "stand before and after the definitions, exports and includes; constants may be 'label + k' evaluated in the defining "
                 "file. 35% of the worlds get one injected fault (invisible local, another file's private name, a second definition, a "
                 "duplicate local, a second export, an export of nothing, an undefined name). The generator computes the binding of every "
